@@ -28,6 +28,7 @@ from ..model import walk_own
 from ..resolve import Ctx
 from . import c09, common
 from .. import dataflow
+from ..facts import path_of
 
 READER_MOD = 'slimta.smtp.datareader'
 READER = READER_MOD + '.DataReader'
@@ -86,6 +87,12 @@ def run(e: Engine, rep: Report):
              'preceded by one complete CRLF or by nothing: no other value '
              'is ever assigned to DataSender.end_marker')
     r59(e, rep)
+    rep.rule('R5.16', 'the reader undoes the stuffing wherever the sender '
+             'may have done it: the dot removal and the end-of-data test in '
+             'handle_finished_line run for every finished line of the '
+             'message - under no condition other than "still inside the '
+             'data", "not the end-of-data line", "starts with a dot"')
+    r516(e, rep, 'R5.16')
     rep.rule('R5.15', 'the sender puts the content on the wire as it is, '
              'dots added and nothing else: no method of DataSender passes '
              'message bytes through a rewriting operation (table '
@@ -912,3 +919,49 @@ def r515(e: Engine, rep: Report):
     else:
         rep.ok('R5.15', SENDER, 'no rewriting operation on the content',
                reason='%d methods scanned' % n, nontrivial=False)
+
+
+# ------------------------------------------------------------------- R5.16
+def r516(e: Engine, rep: Report, rule: str = 'R5.16'):
+    ctx = e.method_ctx(READER, 'handle_finished_line')
+    g = e.build(ctx, raises=lambda b, n, r: set(),
+                inline=e.inline_same_self(), max_depth=3)
+    fx = e.facts(g)
+    where = ctx.func.qname
+    rep.functions.add(where)
+    sites = []
+    for n in g.of_kind('stmt'):
+        a = n.ast
+        if not isinstance(a, ast.Assign):
+            continue
+        for t in a.targets:
+            p = path_of(t, n.frame) or ''
+            if p == 'self.EOD' and not (isinstance(a.value, ast.Constant)
+                                        and a.value.value is None):
+                sites.append((n, 'end-of-data mark'))
+            elif isinstance(t, ast.Subscript) and \
+                    (path_of(t.value, n.frame) or '') == 'self.lines':
+                sites.append((n, 'dot removal'))
+    # `line = line[1:]` followed by the write-back counts through the write
+    if len(sites) < 2:
+        rep.unknown(rule, where, 'un-stuffing sites',
+                    'cannot see the end-of-data mark and the dot removal in '
+                    'handle_finished_line', loc=ctx.func.loc())
+        return
+
+    def allowed(k):
+        return 'EOD' in k or 'eod_pattern' in k or "b'.'" in k or \
+            k.startswith('len(') or '_in_data' in k
+    for n, what in sites:
+        rep.evaluations += 1
+        st = fx.at(n) or frozenset()
+        extra = sorted(k for p, k in st if not allowed(k))
+        rep.check(not extra, rule, where, '%s runs for every finished line'
+                  % what,
+                  'the %s happens only under %s: the sender stuffs a dot '
+                  'after every LF and ends the data with CRLF . CRLF '
+                  'whatever came before, so for a line the reader does not '
+                  'treat, a stuffed dot stays in the content (or the end of '
+                  'the data is missed)' % (what, extra), loc=n.loc(),
+                  reason='conditions: inside the data / not EOD / leading '
+                  'dot only')
